@@ -206,6 +206,17 @@ func scriptedHook(cfg scfg) func(name string, req map[string]interface{}) vs.Hoo
 					}
 					o["spec"] = sp
 				}
+				if mode == "echo-annotations" {
+					// a hook that builds its answer from what it observed: annotations (including metacontroller's own
+					// last-applied record) are copied onto the desired child
+					if g := objMap(children, hookKey(c)); g != nil {
+						if om, ok := g[fmt.Sprint(md["name"])].(map[string]interface{}); ok {
+							if a := objMap(om, "metadata", "annotations"); a != nil {
+								md["annotations"] = vs.DeepCopy(a)
+							}
+						}
+					}
+				}
 				if mode == "child-status" {
 					// a hook that copies whole objects, status included
 					o["status"] = vs.M{"ready": true}
@@ -244,7 +255,7 @@ func scriptedHook(cfg scfg) func(name string, req map[string]interface{}) vs.Hoo
 		if finalizing {
 			// "finalize-latest": the answer depends on the (revisioned) spec, so parent revisions can disagree
 			img := objStr(parent, "spec", "image")
-			resp["finalized"] = observed == 0 || mode == "finalize-now" || (mode == "finalize-latest" && img != "v0" && img != "v00")
+			resp["finalized"] = observed == 0 || mode == "finalize-now" || (mode == "finalize-latest" && (img == "v2" || img == "v3"))
 		}
 		if mode == "resync" {
 			resp["resyncAfterSeconds"] = int64(30)
@@ -323,6 +334,8 @@ func buildScenario(r *vs.Rand, cfg scfg) *scenario {
 		spec["hookMode"] = "finalize-latest"
 	case 9:
 		spec["hookMode"] = "child-status"
+	case 10:
+		spec["hookMode"] = "echo-annotations"
 	}
 	if cfg.GenerateSelector {
 		// with selector generation the children need no matching labels of their own
@@ -461,7 +474,14 @@ func buildScenario(r *vs.Rand, cfg scfg) *scenario {
 		if ci == 0 {
 			for i := 0; i < n+1; i++ {
 				name := fmt.Sprintf("p1-%d", i)
-				switch r.Intn(9) {
+				switch r.Intn(10) {
+				case 9: // owned, applied earlier with exactly what the hook still wants, then changed by an outside writer
+					la := mk(name, childLabels, nil, image)
+					delete(la["metadata"].(vs.M), "namespace")
+					if _, ok := spec["childLabels"]; !ok {
+						delete(la["metadata"].(vs.M), "labels")
+					}
+					w.sim.Put(c.group(), c.Resource, withLA(mk(name, lbl, ownerRef(stored, true), "drifted"), la))
 				case 0: // missing
 				case 1, 2: // owned and up to date (as a previous sync would have left it)
 					la := mk(name, childLabels, nil, image)
